@@ -204,3 +204,45 @@ Arguments rstate : clear implicits.
 Arguments aop : clear implicits.
 Arguments pc : clear implicits.
 Arguments fetcher : clear implicits.
+
+(* ---- fetch errors ----
+   FetchBatch returns (results, err). The fetch goroutine of ReorderFetcher.flush does
+       result, err := d.fetchBatch(ctx, events); if err != nil { d.errChan <- err }; d.buffer.Add(seqNum, result); drain
+   so a failed fetch REPORTS its error and then still fills its slot with whatever results came back with the error (nil, partial
+   or complete): the "result" of a failed batch is what FetchBatch returned, and later batches are not held up.
+   Model: the outcome of fetching a batch is FOk results | FErr returned_results; the step functions above run with
+   fetch := results of the outcome; the layer below records the batches whose fetch has completed, in completion order
+   (x_done), from which the errors sent on ErrChan are read off (x_errs). Sending the error is merged with buffer.Add into
+   AComplete (the consumer of ErrChan is assumed always willing, like the consumer of Output). *)
+Section ReorderErrors.
+Context {T R : Type}.
+
+Inductive outcome := FOk (res : list R) | FErr (returned : list R).
+Definition results (o : outcome) : list R := match o with FOk r => r | FErr r => r end.
+Definition is_err (o : outcome) : bool := match o with FOk _ => false | FErr _ => true end.
+
+Variable fetchx : list T -> outcome.
+Definition fetch_of : list T -> list R := fun ev => results (fetchx ev).
+Definition failed (ev : list T) : bool := is_err (fetchx ev).
+
+Record rxstate := mkRX { rx : rstate T R; x_done : list (list T) }.
+
+Definition completing (i : nat) (s : rstate T R) : list (list T) :=
+  match nth_error (fetchers s) i with
+  | Some (mkF _ ev Fetching) => [ev]
+  | _ => []
+  end.
+
+Definition x_step (p : rparams) (a : action) (xs : rxstate) : rxstate :=
+  mkRX (step fetch_of p a (rx xs))
+       (x_done xs ++ match a with AComplete i => completing i (rx xs) | _ => [] end).
+
+Definition x_run (p : rparams) (acts : list action) (xs : rxstate) : rxstate := fold_left (fun xs a => x_step p a xs) acts xs.
+Definition x_init (sc : list (aop T)) : rxstate := mkRX (r_init sc) [].
+
+(* the errors sent on ErrChan so far, as the batches they belong to, in the order sent *)
+Definition x_errs (xs : rxstate) : list (list T) := filter failed (x_done xs).
+
+End ReorderErrors.
+Arguments outcome : clear implicits.
+Arguments rxstate : clear implicits.
